@@ -1115,7 +1115,10 @@ def purity_rules(prop):
                 for c in getattr(x, "pc", ()) or ():
                     if len(c) > 1 and hasattr(c[1], "op"):
                         used |= tm.params_of(c[1])
-            dead = [p_ for p_ in f.params if p_ not in used and (q, p_) not in PARAM_UNUSED_REVIEWED]
+            # (read off the syntax tree as well: a summary can lose a use - a loop with break / else it abstracts -
+            # and a parameter whose name is loaded anywhere in the body is not dead)
+            loaded = {n_.id for n_ in ast.walk(f.node) if isinstance(n_, ast.Name) and isinstance(n_.ctx, ast.Load)}
+            dead = [p_ for p_ in f.params if p_ not in used and p_ not in loaded and (q, p_) not in PARAM_UNUSED_REVIEWED]
             k += 1
             yield ob(prop + ".PARAMUSED", f, "%s:parameters" % q, not dead, "every parameter of %s is read" % q if not dead else "parameter(s) %s of %s are accepted but read nowhere: the documented argument has no effect" % (", ".join(dead), q))
         need(k >= 1, prop + ".PARAMUSED", "no public function in reach")
